@@ -315,6 +315,7 @@ func (c *Ctx) RuleLimitFirst(fn *ssa.Function, inputIdx int, sentinel *ssa.Globa
 								return
 							}
 							c.checkWorkDominated(fn, input, okBlk, call)
+							c.checkSuccessDominated(fn, input, okBlk, call)
 							c.RuleLimitFirst(callee, ai, sentinel, depth+1)
 							return
 						}
@@ -326,6 +327,7 @@ func (c *Ctx) RuleLimitFirst(fn *ssa.Function, inputIdx int, sentinel *ssa.Globa
 		return
 	}
 	c.checkWorkDominated(fn, input, gi.okBlk, nil)
+	c.checkSuccessDominated(fn, input, gi.okBlk, nil)
 	// error edge: returns error built from zero T and wrapping the sentinel, no operand derived from input content
 	c.checkTooLongEdge(fn, gi, input, sentinel)
 }
@@ -428,6 +430,75 @@ func (c *Ctx) checkWorkDominated(fn *ssa.Function, input *ssa.Parameter, okBlk *
 		}
 	}
 	c.add("discharged", "C18.L", fn, fn.Pos(), fmt.Sprintf("%d work site(s) on the input, all dominated by the guard", n))
+}
+
+// checkSuccessDominated: "any longer input is rejected": no return with a nil error is reachable without passing the
+// guard — a success return outside the guard's continuation answers over-long input like any other. Exempt: a return
+// under `len(input) == 0` (an empty text is not longer than a non-zero limit).
+func (c *Ctx) checkSuccessDominated(fn *ssa.Function, input *ssa.Parameter, okBlk *ssa.BasicBlock, after *ssa.Call) {
+	res := fn.Signature.Results()
+	if res.Len() == 0 || !isErrorType(res.At(res.Len()-1).Type()) {
+		return
+	}
+	var mayBeNil func(v ssa.Value, depth int) bool
+	mayBeNil = func(v ssa.Value, depth int) bool {
+		switch x := v.(type) {
+		case *ssa.Const:
+			return x.IsNil()
+		case *ssa.Phi:
+			if depth > 4 {
+				return false
+			}
+			for _, e := range x.Edges {
+				if mayBeNil(e, depth+1) {
+					return true
+				}
+			}
+		}
+		return false
+	}
+	emptyOnly := func(b *ssa.BasicBlock) bool {
+		for _, d := range fn.Blocks {
+			iff, ok := d.Instrs[len(d.Instrs)-1].(*ssa.If)
+			if !ok {
+				continue
+			}
+			bo, ok := iff.Cond.(*ssa.BinOp)
+			if !ok || bo.Op != token.EQL {
+				continue
+			}
+			k, isK := constInt(bo.Y)
+			call, isCall := bo.X.(*ssa.Call)
+			if !isK || k != 0 || !isCall {
+				continue
+			}
+			if bi, ok := call.Call.Value.(*ssa.Builtin); !ok || bi.Name() != "len" || rootParam(call.Call.Args[0]) != input {
+				continue
+			}
+			if t := d.Succs[0]; len(t.Preds) == 1 && t.Dominates(b) {
+				return true
+			}
+		}
+		return false
+	}
+	n := 0
+	for _, b := range fn.Blocks {
+		ret, ok := b.Instrs[len(b.Instrs)-1].(*ssa.Return)
+		if !ok || len(ret.Results) == 0 {
+			continue
+		}
+		n++
+		if okBlk.Dominates(b) && !(after != nil && b == after.Block() && b == okBlk) {
+			continue
+		}
+		if after != nil && b == after.Block() {
+			continue // the tail delegation itself
+		}
+		if mayBeNil(ret.Results[len(ret.Results)-1], 0) && !emptyOnly(b) {
+			c.add("violated", "C18.L", fn, ret.Pos(), "a return with a nil error is reachable without passing the input-length guard: input longer than the limit is answered instead of rejected")
+		}
+	}
+	c.add("discharged", "C18.L", fn, fn.Pos(), fmt.Sprintf("%d return(s): none with a nil error outside the guard's continuation", n))
 }
 
 func (c *Ctx) checkTooLongEdge(fn *ssa.Function, gi *guardInfo, input *ssa.Parameter, sentinel *ssa.Global) {
